@@ -76,6 +76,18 @@ class C15(Prop):
                 second["exp"] = json.dumps({"id": "<Any value>", "createdAt": "<Any value>", "token": "<Any value>", "keep": [1, 2]})
                 ops += [first, second]
             if r.chance(1, 3):
+                # several paths in one matcher, an absent one listed BEFORE present ones, ErrOnMissingPath(false)
+                kind = r.choice(["type", "any"])
+                t = r.choice(G.TEST_NAMES)
+                paths = r.choice([["nickname", "token"], ["a.b", "token", "user.name"], ["token", "nickname", "user.name"]])
+                ms = [{"kind": kind, "type": "string", "paths": paths, "errOnMissing": False}]
+                doc = {"token": r.choice(["t1", "secret"]), "user": {"name": "n"}, "n": 1}
+                ph = "<Type:string>" if kind == "type" else "<Any value>"
+                exp = {"token": ph, "user": {"name": ph if "user.name" in paths else "n"}, "n": 1}
+                m = G.op_match_doc("json", 0, t, json.dumps(doc).encode(), "string", ms)
+                m["exp"] = json.dumps(exp)
+                ops.append(m)
+            if r.chance(1, 3):
                 # YAML: container placeholders at paths of different depth, deeper first
                 doc = b"top:\n  mid:\n    deep:\n      value: 1\n    other: keep\n  side: 2\nlist:\n  - a\n  - id: b\nlast: z\n"
                 ph = r.choice(['["x","y"]', '{"k1":1,"k2":2}', '"scalar"', '[1]'])
